@@ -10,7 +10,7 @@ goroutine acting), and the state reached at the end must be final.  Answer:
 `model=ok steps=<transitions replayed> skipped=<prologue events validated>` or
 `model=reject at=<event index> why=<reason>`.
 
-  systems: fmap dup joinwg-chan joinwg-slice joinsel pipeline do
+  systems: fmap fmapch dup joinwg-chan joinwg-slice joinsel pipeline do
   cfg    : (cfg (ocap N) (ins (CAP item…) …))            channel systems
            (cfg (n N) (vals v…) (errs e…) (pairs (a b) …))   do   (e = 0: nil error)
   event  : (kind g site g2 site2 object value)            all atoms, as printed by vsched.Event.String
@@ -121,6 +121,10 @@ def capOf (ins : List (Nat × List Nat)) (i : Nat) : Nat :=
 /-- the user function of the fmap scenarios (harness/conc.F) -/
 def userF (x : Nat) : Nat := 3 * x + 1
 
+/-- the channel-valued user function of the fmapch scenarios on channel tags (harness/conc.FCh):
+items ≥ 1000 are mapped to the nil channel (tag 999999) -/
+def userFCh (x : Nat) : Nat := if x ≥ 1000 then 999999 else x
+
 abbrev R := Except String
 
 def need (b : Bool) (msg : String) : R Unit := if b then pure () else throw msg
@@ -158,6 +162,7 @@ def fmapEv (c : FmapChan.Cfg) (s : FmapChan.State) (e : Ev) : R (FmapChan.State 
   | "recv", "fmap.out" => need (e.site == "cons0") "recv-out"; st .cRecv (some e.val)
   | "recvc", "fmap.out" => need (e.site == "cons0") "recvc-out"; st .cRecv none
   | "close", "fmap.out" => need (e.site == "fmap#0") "close-out"; st .fClose none
+  | "make", _ => need (e.site == "main") "make-by-the-emitted-code"; pure (s, false)  -- result channels of a channel-valued f
   | _, _ => throw s!"unknown-event:{e.kind}:{e.ch}"
 
 -- ---------------------------------------------------------------- dup
@@ -417,6 +422,10 @@ def runSys (sys : String) (cfg : SExp) (evs : List Ev) : String :=
         if n != 1 then "bad-op" else
         let c : FmapChan.Cfg := { items := items 0, cap := caps 0, f := userF }
         replay (fmapEv c) (fun s => s.seen && s.pc == .done && s.got == (items 0).map userF) (FmapChan.init c) evs
+      | "fmapch" =>
+        if n != 1 then "bad-op" else
+        let c : FmapChan.Cfg := { items := items 0, cap := caps 0, f := userFCh }
+        replay (fmapEv c) (fun s => s.seen && s.pc == .done && s.got == (items 0).map userFCh) (FmapChan.init c) evs
       | "dup" =>
         if n != 1 then "bad-op" else
         let c : Dup.Cfg := { items := items 0, cap := caps 0 }
